@@ -303,6 +303,12 @@ func genCase(rng *rand.Rand, cfg vh.Config, i int) *Case {
 		c.Hijacker = rng.Intn(3) == 0
 	}
 	c.WithOpts = rng.Intn(2) == 0
+	// net/http's own writer is an io.ReaderFrom: usually keep that visible through the recorder
+	if c.Mode == "server" {
+		c.DownRF = rng.Intn(3) != 0
+	} else {
+		c.DownRF = rng.Intn(3) == 0
+	}
 	if c.Ph1.Kind == "header" && rng.Intn(10) < 6 || rng.Intn(15) == 0 {
 		c.ReqHeaders = append(c.ReqHeaders, []string{"X-Attack", pick(rng, "1", "1", "0")})
 	}
@@ -566,6 +572,63 @@ func memGridCases(cfg vh.Config) []*Case {
 					}
 					c.Ops = append(c.Ops, Op{Op: "w", Hex: hex.EncodeToString([]byte("ok"))})
 					out = append(out, c)
+				}
+			}
+		}
+	}
+	return out
+}
+
+// readFromGridCases: io.Copy(w, src-without-WriteTo) as the handler's first output / after WriteHeader /
+// after a Write, over a real server whose writer is an io.ReaderFrom (and, for contrast, one that is
+// not) x deny in phase 3 and 4 (unconditional, on a response header, on the body) x response body
+// access x MIME match.
+func readFromGridCases(cfg vh.Config) []*Case {
+	var out []*Case
+	none := Spec{Kind: "none"}
+	hx := func(s string) string { return hex.EncodeToString([]byte(s)) }
+	rules := []struct {
+		ph int
+		s  Spec
+	}{
+		{0, none},
+		{3, Spec{Kind: "always", Action: "deny", Status: 403}},
+		{3, Spec{Kind: "header", K: "X-Leak", V: "1", Action: "deny", Status: 401}},
+		{4, Spec{Kind: "always", Action: "deny"}},
+		{4, Spec{Kind: "contains", Marker: hx(respMarker), Action: "deny", Status: 403}},
+	}
+	for shape := 0; shape < 3; shape++ {
+		for _, rl := range rules {
+			for _, access := range []bool{true, false} {
+				for _, ct := range []string{"text/plain", "image/png"} {
+					for _, down := range []bool{true, false} {
+						for _, mode := range []string{"server", "recorder"} {
+							if mode == "recorder" && (!down || !cfg.Thorough() && shape != 0) {
+								continue
+							}
+							c := &Case{Mode: mode, Engine: "On", ReqAccess: false, ReqLimit: 100, ReqAction: "Reject",
+								RespAccess: access, RespLimit: 100, RespAction: "Reject", Mimes: []string{"text/plain"},
+								Ph1: none, Ph2: none, Ph3: none, Ph4: none, Method: "POST", ReqCT: "text/plain",
+								BodyHex: hx("q"), DownRF: down}
+							switch rl.ph {
+							case 3:
+								c.Ph3 = rl.s
+							case 4:
+								c.Ph4 = rl.s
+							}
+							c.Ops = []Op{{Op: "set", K: "Content-Type", V: ct}, {Op: "set", K: "X-Leak", V: "1"}}
+							rf := Op{Op: "rf", Chunks: []string{hx("top "), hx(respMarker), hx(" tail")}}
+							switch shape {
+							case 0: // first output of the handler
+								c.Ops = append(c.Ops, rf)
+							case 1: // after an explicit status
+								c.Ops = append(c.Ops, Op{Op: "wh", C: 201}, rf)
+							default: // after a Write
+								c.Ops = append(c.Ops, Op{Op: "w", Hex: hx("head ")}, rf, Op{Op: "fl"})
+							}
+							out = append(out, c)
+						}
+					}
 				}
 			}
 		}
